@@ -874,7 +874,30 @@ def r3s(F):
     extra = sorted(writers - {"op_push_self", "op_pop_self"})
     r.inst("self_stack:writers", "src/build/opcode/vm.rs", not extra,
            "only op_push_self and op_pop_self modify self_stack" if not extra else "self_stack is also modified by %s" % extra)
-    # a child VM starts with its own (copied or empty) self stack: constructors only
+    # the VM that evaluates the `@{..}` parts of a format string is a child of the current one (op_new_scope): the expression is part
+    # of the enclosing copy body, so `self` must still be the enclosing tuple there - the child is built with the parent's self stack
+    ns = F.fn(VM + "op_new_scope")
+    need(ns is not None, "op_new_scope not found")
+    makers = []
+    for b, t in ns.calls():
+        c = callee(t)
+        if c.startswith(VM) and c in F.fns and c != ns.name:
+            g = F.fns[c]
+            for gb, j, pl, rv, m in g.assigns():
+                if rv["k"] == "agg" and rv.get("adt") == adt and "self_stack" in (rv.get("fields") or []):
+                    makers.append((g, gb, rv))
+    for b, j, pl, rv, m in ns.assigns():
+        if rv["k"] == "agg" and rv.get("adt") == adt and "self_stack" in (rv.get("fields") or []):
+            makers.append((ns, b, rv))
+    need(makers, "op_new_scope: the construction of the child VM was not found")
+    for g, gb, rv in makers:
+        op = rv["ops"][rv["fields"].index("self_stack")]
+        labs = Origins(g).at(op, gb)
+        ok = ("field", "self_stack") in labs
+        r.inst("format-scope:%s:self_stack-inherited" % g.name.split("::")[-1], g.where(gb), ok,
+               "the child VM starts with the parent's self stack" if ok else
+               "the VM that evaluates `@{..}` inside a copy body starts with an empty self stack: `base{ url = \"@{self.host}\" % {} }` fails "
+               "with \"No such binding self\" (the reference semantics evaluates the expression in the enclosing scope)")
     return r
 
 
